@@ -8,18 +8,25 @@ LEVEL = 'other'
 EXPLANATION = ('Proved (structure): codegen_inv selects the Hitzer closed forms for d < 6 and the Shirokov scheme beyond, and returns '
                'x*num over denom; codegen_div assembles num * d with the dependency d = 1/denom and raises ZeroDivisionError when the symbolic '
                'denominator is identically zero; a/b, number/x delegate to div / inv with operands in order (powers belong to C19 / C11).  '
-               'The algebraic identity x * num(x) == denom (a polynomial identity of degree up to 8 in up to 32 variables per dimension) is NOT '
-               'discharged deductively: bounded stand-in with exact Fractions, two-sided, all signatures d<=4 (5..7 sampled), sparse/permuted/'
-               'zero-padded patterns; ZeroDivisionError-only-for-singular against an exact determinant oracle d<=4; power_supply/AdditionChains '
-               'exhaustive for exponents <= 40.')
+               'Proved (algebra, contracts/inverse_c.py): the real body of codegen_hitzer_inv is interpreted on a generic element (one '
+               'indeterminate per blade, exact integer polynomial coefficients, independent reference product); for every signature of '
+               'every dimension d <= 4 (121 algebras) x * num == denom and num * x == denom hold as polynomial identities, i.e. for all '
+               'operands; decided by exact normal forms (no solver).  d = 5: the same for one signature per class (5,0,0), (4,1,0), (4,0,1), '
+               '(3,1,1) in the thorough tier only, with the last product kept lazy and associativity (L-assoc); other 5-D signatures, the '
+               'Shirokov scheme (d >= 6), float rounding, and ZeroDivisionError-only-for-singular: bounded stand-in with exact Fractions, '
+               'two-sided, sparse/permuted/zero-padded patterns, exact determinant oracle d<=4; power_supply/AdditionChains exhaustive for '
+               'exponents <= 40.')
 TRUSTED = ['z3 5.1 (python API)', 'kvc VC generator', 'CPython ast module']
 ASSUMPTIONS = [K.ASSUME_CPYTHON, K.ASSUME_TAIL, 'floating point ("to rounding otherwise") is not modelled; exact Fractions only',
-               'Hitzer / Shirokov inverse formulas (mathematics) are checked only on the sampled inputs']
-ASSUMED = ['codegen_hitzer_inv / codegen_shirokov_inv bodies: bounded stand-in only', 'power_supply / AdditionChains: bounded (exhaustive k<=40)']
+               'Shirokov inverse (d >= 6) and the 5-D closed form outside the listed signature classes are checked only on the sampled inputs', 'kingdon\'s product on symbolic operands is the reference product (C01, C02); a right inverse in a finite-dimensional algebra is a left inverse (used for d = 5 only)']
+ASSUMED = ['codegen_shirokov_inv body: bounded stand-in only', 'codegen_hitzer_inv for d = 5: proved for four signature classes (thorough tier), bounded otherwise', 'power_supply / AdditionChains: bounded (exhaustive k<=40)']
 
 
 def build(H, tier, seed):
     U.vc_inv_div_structure(H)
+    from contracts import inverse_c as I
+    I.vc_hitzer_inv(H, tier)
+    I.vc_inv_patterns(H, tier)
     M.vc_mv_delegations(H, methods_binary=['div', '__truediv__'], methods_unary=['inv'])
     # __rtruediv__: operand order matters only for non-numbers on the left (C16); number/x is in the stand-in
 
